@@ -132,6 +132,7 @@ package ledger
 //@   modifies qWhere, qWhereCount, qOrderExpr
 //@   ensures property == "effectiveVolumes" && h.store.ledger.Features["MOVES_HISTORY_POST_COMMIT_EFFECTIVE_VOLUMES"] != "SYNC" ==> err != nil && isErr(err, ErrMissingFeature) && r == nil
 //@   ensures property != "effectiveVolumes" ==> r == nil && err == nil
+//@   ensures err != nil ==> isErr(err, common.ErrInvalidQuery) || isErr(err, ErrMissingFeature)
 
 //@ func (h accountsResourceHandler) Expand(opts common.ResourceQuery[any], property string) (r *bun.SelectQuery, j *common.JoinCondition, err error)
 //@   property C35
@@ -139,6 +140,9 @@ package ledger
 //@   modifies qWhere, qWhereCount, qOrderExpr
 //@   ensures property == "volumes" && h.store.ledger.Features["MOVES_HISTORY"] != "ON" ==> err != nil && r == nil
 //@   ensures property == "effectiveVolumes" && h.store.ledger.Features["MOVES_HISTORY_POST_COMMIT_EFFECTIVE_VOLUMES"] != "SYNC" ==> err != nil && r == nil
+//@   ensures property != "volumes" && property != "effectiveVolumes" ==> r == nil && err == nil
+//@   ensures err != nil ==> isErr(err, common.ErrInvalidQuery) || isErr(err, ErrMissingFeature)
+//@   note the expansion name is pasted into the SQL text (`... as <name>`): only the two known names may get that far
 
 //@ func (h volumesResourceHandler) BuildDataset(query common.RepositoryHandlerBuildContext[ledger.GetVolumesOptions]) (r *bun.SelectQuery, err error)
 //@   property C35
@@ -181,7 +185,6 @@ package ledger
 //@   requires (property == "timestamp" || property == "inserted_at" || property == "updated_at" || property == "reverted_at") && is(value, string) ==> parsesTime(value.(string))
 //@   note the requires are what queries.TypeBoolean / TypeString.ValidateValue establish for these properties (entity schema TransactionSchema); the walk of the filter tree that connects them (go-libs query.Builder) is not under contract
 
-
 // The operator requires of the ResolveFilter contracts are the operator lists of the entity schemas (queries/resources.go,
 // queries.Type*.Operators, under contract in internal/queries): what validateFilters lets through for the property.
 //@ func (h logsResourceHandler) ResolveFilter(q common.ResourceQuery[any], operator string, property string, value any) (s string, args []any, err error)
@@ -215,3 +218,20 @@ package ledger
 //@   ensures err != nil ==> isErr(err, common.ErrInvalidQuery)
 //@   loop 1:
 //@     invariant true
+
+// expansions a resource does not have are refused as invalid queries (400), not with a plain error (500)
+//@ func (h volumesResourceHandler) Expand(q common.ResourceQuery[ledger.GetVolumesOptions], property string) (r *bun.SelectQuery, j *common.JoinCondition, err error)
+//@   property C38
+//@   ensures err != nil && isErr(err, common.ErrInvalidQuery)
+
+//@ func (h logsResourceHandler) Expand(q common.ResourceQuery[any], property string) (r *bun.SelectQuery, j *common.JoinCondition, err error)
+//@   property C38
+//@   ensures err != nil && isErr(err, common.ErrInvalidQuery)
+
+//@ func (h schemasResourceHandler) Expand(q common.ResourceQuery[any], property string) (r *bun.SelectQuery, j *common.JoinCondition, err error)
+//@   property C38
+//@   ensures err != nil && isErr(err, common.ErrInvalidQuery)
+
+//@ func (h aggregatedBalancesResourceRepositoryHandler) Expand(q common.ResourceQuery[ledger.GetAggregatedVolumesOptions], property string) (r *bun.SelectQuery, j *common.JoinCondition, err error)
+//@   property C38
+//@   ensures err != nil && isErr(err, common.ErrInvalidQuery)
